@@ -2,8 +2,8 @@ import sys, io, copy, warnings, traceback
 warnings.filterwarnings('ignore')
 root = sys.argv[1]
 sys.path.insert(0, root + '/src')
-sys.path.insert(0, '/verif/harness')
-import stub_modules as stubmods; stubmods.install()
+sys.path.insert(0, '/root/scratch/probe')
+import stubmods; stubmods.install()
 import logging; logging.disable(logging.CRITICAL)
 import numpy as np, pydicom, highdicom as hd
 from pydicom.sr.codedict import codes
